@@ -289,7 +289,10 @@ static void on_refine_op(int kind, void* cellp, unsigned n1, unsigned n2, int ph
 
 static bool in_band_and_good(const cell& c, const local_mesh_refiner& lmr, cell_ptr cp) {
     for (const edge& e : c.edge_set_) { double l2 = (c.node_lst_[e.n1()].pos_ - c.node_lst_[e.n2()].pos_).squared_norm(); if (!(l2 <= L_MAX * L_MAX && l2 >= L_MIN * L_MIN)) return false; }
-    for (const face& f : c.face_lst_) if (f.is_used_) { auto [score, le] = lmr.get_triangle_score(cp, f); if (!(score >= 0.2)) return false; }
+    // the quality of every triangle is computed here from the node positions (the rule itself reads the cached face areas: with fresh caches the two agree, and a cache that an earlier
+    // operation of the history left stale must not make a conforming mesh look elongated); triangles within 1e-9 of the threshold decide nothing
+    for (const face& f : c.face_lst_) if (f.is_used_) { const vec3 &p0 = c.node_lst_[f.n1_id_].pos_, &p1 = c.node_lst_[f.n2_id_].pos_, &p2 = c.node_lst_[f.n3_id_].pos_; const double per = (p1 - p0).norm() + (p2 - p1).norm() + (p0 - p2).norm(), area = 0.5 * (p1 - p0).cross(p2 - p0).norm();
+        if (!(36. / std::sqrt(3.) * area / (per * per) >= 0.2 * (1 + 1e-9))) return false; (void)lmr; (void)cp; }
     return true;
 }
 
